@@ -394,7 +394,7 @@ func check(c *pbt.Ctx, cs Case) {
 			class = "root"
 		case parent == nil:
 			class = "absent-inner"
-		case !stepFits(parent, last) && !(parent.K == tm.MAP && len(parent.Keys) == 0 && last.Kind == "k"):
+		case !stepFits(parent, last):
 			class = "wrong-kind"
 		case node != nil:
 			class = "present"
@@ -906,6 +906,14 @@ func genOps(t *rapid.T, u *tm.Universe, v *tm.Value, typed bool) []Op {
 				wrong := PStep{Kind: "i", Index: 0}
 				if n.v.K == tm.LIST || n.v.K == tm.SET {
 					wrong = PStep{Kind: "f", ID: 1}
+				}
+				if n.v.K == tm.MAP && rapid.Bool().Draw(t, "wrongKeyKind") {
+					// a key of the wrong kind (also on an empty map: its header still names the key type)
+					if n.v.KT == tm.STRING {
+						wrong = PStep{Kind: "k", Key: &tm.Value{K: tm.I32, I: int64(rapid.IntRange(-1, 3).Draw(t, "wrongKey"))}}
+					} else {
+						wrong = PStep{Kind: "k", Key: &tm.Value{K: tm.STRING, S: []byte([]string{"", "a", "1"}[rapid.IntRange(0, 2).Draw(t, "wrongKey")])}}
+					}
 				}
 				path = append(append([]PStep{}, n.path...), wrong)
 				ops = append(ops, Op{Kind: []string{"set", "unset"}[rapid.IntRange(0, 1).Draw(t, "su")], Path: path, New: tm.GenValue(t, u, ty, valCfg), Class: "wrong-kind"})
